@@ -2321,9 +2321,9 @@ func main() {
 		rec(nil, 0)
 
 		// 3. random valid documents: fragments at several depths, variables, contexts, several operations
-		n := 16000
+		n := 11000
 		if h.Thorough() {
-			n = 250000
+			n = 256000
 		}
 		for i := 0; i < n; i++ {
 			h.Case(func(r *rng.R) sexp.Node {
@@ -2333,9 +2333,9 @@ func main() {
 		}
 
 		// 4. hostile: invalid documents, uncoercible variables, negative costs
-		n = 3000
+		n = 2400
 		if h.Thorough() {
-			n = 40000
+			n = 41000
 		}
 		for i := 0; i < n; i++ {
 			h.Case(func(r *rng.R) sexp.Node {
@@ -2381,9 +2381,9 @@ func main() {
 			}
 		}
 
-		n = 3000
+		n = 2400
 		if h.Thorough() {
-			n = 30000
+			n = 31000
 		}
 		for i := 0; i < n; i++ {
 			h.Case(func(r *rng.R) sexp.Node { return apiCase(r, apis, dcs) })
